@@ -242,10 +242,23 @@ def rule_options_at_any_position(ctx):
 
     model = ctx.model
     ctx.res.minimum("O18.5", 1)
+    from ..model import FuncInfo
+    from .c10 import analysis
+
+    graph = analysis(model)[0].graph
     info = model.func("cutplace.applications.CutplaceApp.set_options")
     positionals = []
     parse_calls = []
-    for node in walk_own(info.node):
+    # the declarations may sit in helpers of the same module (a parser factory): follow them
+    bodies, seen = [info], {info.qualname}
+    for current in bodies:
+        for node in walk_own(current.node):
+            if isinstance(node, ast.Call):
+                for target in graph.resolve_call(current, node):
+                    if isinstance(target, FuncInfo) and target.module is info.module and target.qualname not in seen and len(bodies) < 12:
+                        seen.add(target.qualname)
+                        bodies.append(target)
+    for node in [n for body in bodies for n in walk_own(body.node)]:
         if isinstance(node, ast.Call) and isinstance(node.func, ast.Attribute):
             if node.func.attr == "add_argument" and node.args and isinstance(node.args[0], ast.Constant) and isinstance(node.args[0].value, str) \
                     and not node.args[0].value.startswith("-"):
